@@ -5,6 +5,7 @@ package main
 import (
 	"bytes"
 	"fmt"
+	"io"
 	"strconv"
 	"strings"
 
@@ -43,7 +44,33 @@ func poolChurn() {
 	}
 }
 
+// skipReader gives a source the Discard(n) method of *bufio.Reader (what Dialer.Dial and
+// HTTPUpgrader hand back), without reading ahead: like bufio's, a stream that ends before n bytes
+// were skipped is reported with the source's own error (io.EOF at a clean end).
+type skipReader struct{ io.Reader }
+
+func (s skipReader) Discard(n int) (int, error) {
+	done := 0
+	var buf [64]byte
+	for done < n {
+		m := n - done
+		if m > len(buf) {
+			m = len(buf)
+		}
+		k, err := s.Read(buf[:m])
+		done += k
+		if err != nil {
+			return done, err
+		}
+	}
+	return done, nil
+}
+
 func mkReader(data []byte, k int, fin string) (rd interface{ Read([]byte) (int, error) }, pos func() int) {
+	if strings.HasPrefix(fin, "b") {
+		rd, pos = mkReader(data, k, fin[1:])
+		return skipReader{rd}, pos
+	}
 	cr := chunkReader{data: data, k: k, fin: finErr(fin[:1])}
 	if strings.HasSuffix(fin, "d") {
 		r := &dataFinReader{cr}
@@ -114,6 +141,28 @@ func init() {
 			}
 		}
 		return hx(outb) + " LOOP"
+	}
+	// crc <hex> <mask> <k> <heads> <fin>: a few Reads of the given sizes, then the rest through
+	// io.Copy (which uses an io.WriterTo when the reader has one): the keystream position is the
+	// number of bytes delivered so far, whichever way they were delivered.
+	ops["crc"] = func(a []string) string {
+		data := unhx(a[0])
+		k, _ := strconv.Atoi(a[2])
+		src, _ := mkReader(data, k, a[4])
+		cr := wsutil.NewCipherReader(src, mask4(a[1]))
+		var outb []byte
+		for _, sz := range ints(a[3]) {
+			buf := make([]byte, sz)
+			n, err := cr.Read(buf)
+			outb = append(outb, buf[:n]...)
+			if err != nil {
+				return hx(outb) + " " + classify(err)
+			}
+		}
+		var dst bytes.Buffer
+		_, err := io.Copy(struct{ io.Writer }{&dst}, cr)
+		outb = append(outb, dst.Bytes()...)
+		return hx(outb) + " copy:" + classify(err)
 	}
 	ops["cwr"] = func(a []string) string { // cwr <mask> <accepts> <p1,p2,...>
 		lw := &limitWriter{acc: ints(a[1])}
@@ -237,6 +286,23 @@ func genC02(tier string, r *rng) {
 			n = r.intn(5000)
 		}
 		run(fmt.Sprintf("crd %s %s %d %s %s", hx(r.bytes(n)), keys[r.intn(4)], r.intn(19), bufsets[r.intn(len(bufsets))], fins[r.intn(4)]))
+	}
+	// a head taken with Read (every length 0..9, then random), the tail with io.Copy
+	for h := 0; h < 10; h++ {
+		for _, n := range []int{h, h + 1, h + 7, 40, 700} {
+			run(fmt.Sprintf("crc %s %s %d %d %s", hx(r.bytes(n)), keys[1+h%3], []int{0, 3, 16}[h%3], h, fins[h%2]))
+		}
+	}
+	for i := 0; i < nr/5; i++ {
+		n := r.intn(90)
+		if r.intn(8) == 0 {
+			n = r.intn(3000)
+		}
+		if i%100 == 7 {
+			n = 32768 + r.intn(3000) // more than one io.Copy buffer
+		}
+		heads := []string{"1", "2", "3", "1,1", "5,2", "6", "9,9,1", "0,3", "13"}[r.intn(9)]
+		run(fmt.Sprintf("crc %s %s %d %s %s", hx(r.bytes(n)), keys[r.intn(4)], r.intn(19), heads, fins[r.intn(4)]))
 	}
 	// streaming writer: sequences of writes, possibly one short accept
 	for i := 0; i < nr; i++ {
